@@ -100,6 +100,11 @@ pub enum Op {
     /// close begins, the thread is released and sees the shutdown flag; then reopen with this
     /// configuration. An interrupted compaction must not be installed.
     CloseBusy(u32, Cfg),
+    /// compact_range(lo, hi) on another thread with the compaction thread parked at the k-th
+    /// iteration of the first table compaction's loop; while it is parked the listed puts are made
+    /// (until the memtable has been rotated), then it is released: the pending memtable is flushed
+    /// from inside the compaction loop, on a version whose compaction is half done
+    CompactBusy(Option<Vec<u8>>, Option<Vec<u8>>, u32, Vec<(Vec<u8>, Vec<u8>)>),
     /// take snapshot with this id
     Snap(u32),
     /// release snapshot id
@@ -177,6 +182,12 @@ impl Op {
             ),
             Op::Reopen(c) => format!("R:{}", c.to_tok()),
             Op::CloseBusy(k, c) => format!("Z:{k}:{}", c.to_tok()),
+            Op::CompactBusy(a, b, k, ws) => format!(
+                "K:{}:{}:{k}:{}",
+                a.as_ref().map_or("*".to_string(), |x| hex(x)),
+                b.as_ref().map_or("*".to_string(), |x| hex(x)),
+                ws.iter().map(|(k, v)| format!("{}={}", hex(k), val_tok(v))).collect::<Vec<_>>().join(",")
+            ),
             Op::Snap(i) => format!("N:{i}"),
             Op::Release(i) => format!("X:{i}"),
             Op::GetAt(i, k) => format!("A:{i}:{}", hex(k)),
@@ -218,6 +229,16 @@ impl Op {
             }
             "R" => Op::Reopen(Cfg::from_tok(p.get(1)?)?),
             "Z" => Op::CloseBusy(p.get(1)?.parse().ok()?, Cfg::from_tok(p.get(2)?)?),
+            "K" => {
+                let a = if *p.get(1)? == "*" { None } else { Some(unhex(p[1])?) };
+                let b = if *p.get(2)? == "*" { None } else { Some(unhex(p[2])?) };
+                let mut ws = vec![];
+                for e in p.get(4)?.split(',').filter(|x| !x.is_empty()) {
+                    let (k, v) = e.split_once('=')?;
+                    ws.push((unhex(k)?, val_untok(v)?));
+                }
+                Op::CompactBusy(a, b, p.get(3)?.parse().ok()?, ws)
+            }
             "N" => Op::Snap(p.get(1)?.parse().ok()?),
             "X" => Op::Release(p.get(1)?.parse().ok()?),
             "A" => Op::GetAt(p.get(1)?.parse().ok()?, unhex(p.get(2)?)?),
@@ -292,6 +313,7 @@ pub struct Stats {
     pub entries_dropped: u64,
     pub potential_drop: u64,
     pub closes_during_table_compaction: u64,
+    pub flushes_staged_inside_a_compaction: u64,
     pub lingering: u64,
     pub events_validated: u64,
     pub selections_checked: u64,
@@ -1082,6 +1104,45 @@ pub fn run_history(h: &History, checks: &Checks, fs: &SimFs) -> RunOut {
                 if let Some(before) = before {
                     let after = full_dump(d, &oracle, &snaps);
                     compare_dumps(&before, &after, "compact_range", i, &mut obs);
+                }
+            }
+            Op::CompactBusy(a, b, k, writes) => {
+                crate::sched::reset();
+                let g = crate::sched::arm("bg", "bg:compact-loop", *k);
+                let r: Range<Option<&[u8]>> = a.as_deref()..b.as_deref();
+                let mut wrote = 0usize;
+                std::thread::scope(|sc| {
+                    let h = sc.spawn(|| d.compact_range(r));
+                    let t0 = std::time::Instant::now();
+                    while !g.wait_parked(std::time::Duration::from_millis(1)) && !h.is_finished() && t0.elapsed() < std::time::Duration::from_secs(5) {}
+                    if g.wait_parked(std::time::Duration::from_millis(0)) {
+                        stats.flushes_staged_inside_a_compaction += 1;
+                        for (key, v) in writes {
+                            // stop once the memtable has been rotated: the next rotation would wait for
+                            // the parked thread
+                            if d.verif_state().imm.is_some() {
+                                break;
+                            }
+                            if d.put(wo(), key.clone(), v.clone()).is_ok() {
+                                oracle.insert(key.clone(), v.clone());
+                            }
+                            wrote += 1;
+                        }
+                    }
+                    g.release();
+                    let _ = h.join();
+                });
+                crate::sched::reset();
+                // whatever was not written while the thread was parked is written now
+                for (key, v) in writes.iter().skip(wrote) {
+                    if d.put(wo(), key.clone(), v.clone()).is_ok() {
+                        oracle.insert(key.clone(), v.clone());
+                    }
+                }
+                if let Some(st) = settle(d, &mut stats, &mut obs, i, &mut drv, &mut chain) {
+                    if checks.shape {
+                        check_shape(d, &st, &mut obs, i);
+                    }
                 }
             }
             Op::Idle => {
